@@ -23,7 +23,10 @@ META = dict(
     level_note="Attested timestamp = whole seconds (the module documents integer timestamps), attested parents = the set "
                "(testaments list parents sorted). Messages and property values are restricted to XML-representable text "
                "(pack-0.92 rewrites other control characters when storing the revision, before any testament is made). "
-               "Parents have empty trees, so last-changed revisions (strict forms) do not depend on the parent list. "
+               "Parents have empty trees, so last-changed revisions of files (strict forms) do not depend on the parent list; "
+               "the last-changed revision of the tree root (StrictTestament3) is defined by the format a revision was "
+               "committed in (rich root or not) and is modelled as such: native 2a and native pack-0.92 commits must agree "
+               "on it only where the formats define the same value, a revision fetched across formats must keep it. "
                "Revision id and file ids are identities and stay fixed. Trusted: the commit path as executed, sha1, TLC, "
                "the JSON bridge.",
 )
@@ -46,7 +49,7 @@ VALUES = {
     "props": [{}, {"p": "v"}, {"p": "v\n"}, {"p": "v\nw"}, {"p": "v", "q": ""}, {"q": "v"}, {"p": "é"}],
 }
 VARIANTS = ("2a", "pack-0.92", "2a-swapped", "fetched")
-WITNESSES = ("WitnessAlias", "WitnessExec", "WitnessBackslash")
+WITNESSES = ("WitnessAlias", "WitnessExec", "WitnessRoot", "WitnessBackslash")
 
 
 def gen_cfg(base_vary, inv=("LawsHoldOnSpec",)):
@@ -164,9 +167,9 @@ def run(ctx):
     ctx.cov["pairs"], ctx.cov["variant_cases"], ctx.cov["revisions_built"] = len(pairs), len(variants), len(wanted)
     ctx.cov["exhaustive"] = True
     ctx.rule("base records = all values of %s with every other field at its first value; pairs = every base record x every "
-             "field x every other value of that field's domain (each unordered pair once); variant cases = every base "
-             "record stored as 2a vs pack-0.92 / 2a with the parents inserted in the other order / pack-0.92 fetched into "
-             "2a; all enumerated by TLC; every pair is non-trivial (two distinct executions)" % (base_vary,))
+             "field x every two different values of that field's domain; variant cases = every base "
+             "record (also without parents and as a merge) stored as 2a vs pack-0.92 / 2a with the parents inserted in the "
+             "other order / pack-0.92 fetched into 2a, and pack-0.92 vs the latter two; all enumerated by TLC; every pair is non-trivial (two distinct executions)" % (base_vary,))
     ctx.assume("timestamps are whole seconds and parents a set (documented testament format 1); message / property text is "
                "XML-representable")
     for r in (rows[0], rows[len(rows) // 2], rows[-1]):
